@@ -215,7 +215,8 @@ Record c11_case := mkC11 {
   c11_model : model; c11_props : eprops;
   c11_vent_props : option Q;     (* props.global.global_ventilation_rate (None: not finite) *)
   c11_vent_model : option Q;     (* Model::global_ventilation_rate() (None: not finite) *)
-  c11_top : Q * Q * Q * Q        (* area_ref, compactness, vol_env_net, vol_env_gross as repeated at top level *) }.
+  c11_top : Q * Q * Q * Q;       (* area_ref, compactness, vol_env_net, vol_env_gross as repeated at top level *)
+  c11_tilts : list (Q * tiltc * tiltc)   (* a tilt, its class by the project-file reader (hulc Wall::position) and by bemodel Tilt::from *) }.
 
 (* areas are sums of f32 products rounded to 2 decimals: 1/200 + noise *)
 Definition agree_C11 (c : c11_case) : N :=
@@ -236,4 +237,5 @@ Definition agree_C11 (c : c11_case) : N :=
            then opt_close (close_rel (1 # 100000) (1 # 1000000)) (c11_vent_props c) (c11_vent_model c) else true);
     (11%N, qeqb (gp_co100 g) (c_o_100 m));
     (12%N, match c11_top c with (a, cp, vn, vg) =>
-             qeqb a (gp_aref g) && qeqb cp (gp_compactness g) && qeqb vn (gp_vol_net g) && qeqb vg (gp_vol_gross g) end) ].
+             qeqb a (gp_aref g) && qeqb cp (gp_compactness g) && qeqb vn (gp_vol_net g) && qeqb vg (gp_vol_gross g) end);
+    (13%N, forallb (fun e => match e with (t, ph, pm) => tiltc_eqb ph (hulc_position t) && tiltc_eqb pm (tilt_class t) end) (c11_tilts c)) ].
